@@ -5,6 +5,7 @@ CONSTANT EmitCase = TRUE
 CONSTANT EmitMod = 12
 CONSTANT Alphabet = "B"
 CONSTANT MCFuelC = 60
+CONSTANT NB = 14
 CONSTANT FUEL <- MCFuel
 INVARIANT VerdictReflectsState
 INVARIANT VerdictStrict
